@@ -172,6 +172,17 @@ fn enumerate_parse(t: Tier, shard: usize, nshards: usize, f: &mut dyn FnMut(Pars
                 }
             }
         }
+        // the library's own prints (and other wrappings) of every small table: all outside the accept set
+        for n in 0..=3usize {
+            for v in 0u64..(1u64 << (1usize << n)) {
+                let tt = Tt::from_words(n, vec![v]);
+                for k in 0..crate::gen::WRAPPED_FORMS {
+                    if sc.mine() && !f(ParseCase { fam, n, s: crate::gen::wrapped_form(n, &tt, k) }) {
+                        return;
+                    }
+                }
+            }
+        }
         for n in 0..=t.pick(3usize, 4) {
             let width = Tt::hex_width(n);
             for len in 0..=width + 1 {
